@@ -164,4 +164,15 @@ CHECKS = {
             {"pkg": "core", "run": "^TestC19Proxy$", "quick": 800, "thorough": 40000, "shards_thorough": 8},
         ],
     },
+    "C14": {
+        "level": "exploration",
+        "assumptions": ["the race detector only sees executed interleavings: absence of reports is not absence of races",
+                        "a report counts only if the innermost non-runtime frame of both accesses is framework code; reports involving harness frames or documented non-concurrency-safe global setters are harness bugs (exit 2)",
+                        "built with -race -gcflags=all=-d=checkptr=0 (the router's controller pools do uintptr arithmetic)"],
+        "parallel_quick": 2,
+        "runs": [
+            {"pkg": "racew", "race": True, "run": "^TestC14Programs$", "quick": 100, "thorough": 4000, "shards_thorough": 8, "timeout_quick": 900},
+            {"pkg": "racew", "race": True, "run": "^TestC14Programs$", "quick": 40, "thorough": 1200, "shards_thorough": 4, "env": {"VERIF_C14_LOG": "info"}, "timeout_quick": 900},
+        ],
+    },
 }
